@@ -41,7 +41,10 @@ def decAcc : Nat → List Char → Nat → Nat × Nat
   | c, [], n => (c, n)
   | c, d :: r, n => if c < 128 && isDigit d then decAcc (c * 10 + (d.toNat - 48)) r (n + 1) else (c, n)
 
-def natDigits (n : Nat) : List Char := (toString n).toList
+/-- `strconv.AppendInt(…, n, 10)` for `n ≥ 0` -/
+def natDigits (n : Nat) : List Char :=
+  if n < 10 then [Char.ofNat (48 + n)] else natDigits (n / 10) ++ [Char.ofNat (48 + n % 10)]
+decreasing_by omega
 
 abbrev EntMap := List (List Char × List Char)
 abbrev RevMap := List (Char × List Char)
